@@ -15,7 +15,7 @@ import (
 const c05Fam = gen.FAscii | gen.FCSV | gen.FNewline | gen.FCR | gen.FInvalid | gen.FWide | gen.FNUL | gen.FHTML | gen.FEdge
 
 func c05Table(r *gen.R) gen.TableSpec {
-	return r.Table(gen.TableOpts{MaxCols: 5, MaxRows: 6, ZeroHeaderOK: true, MinCols: 0, Noise: gen.NoiseSkipable | gen.NoiseAlign,
+	return r.Table(gen.TableOpts{MaxCols: 5, MaxRows: 6, ZeroHeaderOK: true, MinCols: 0, Noise: gen.NoiseSkipable | gen.NoiseAlign | gen.NoiseCallbacks,
 		Item: func(r *gen.R) gen.ItemSpec {
 			if r.Chance(1, 25) {
 				return r.AnyItem(c05Fam, 5, 1)
